@@ -493,9 +493,6 @@ class PDFStandardSecurityHandlerV4(PDFStandardSecurityHandler):
         self.stmf = literal_name(self.param["StmF"])
         self.strf = literal_name(self.param["StrF"])
         self.encrypt_metadata = bool(self.param.get("EncryptMetadata", True))
-        if self.stmf != self.strf:
-            error_msg = "Unsupported crypt filter: param=%r" % self.param
-            raise PDFEncryptionError(error_msg)
         self.cfm = {}
         for k, v in self.cf.items():
             f = self.get_cfm(literal_name(v["CFM"]))
@@ -504,7 +501,7 @@ class PDFStandardSecurityHandlerV4(PDFStandardSecurityHandler):
                 raise PDFEncryptionError(error_msg)
             self.cfm[k] = f
         self.cfm["Identity"] = self.decrypt_identity
-        if self.strf not in self.cfm:
+        if self.strf not in self.cfm or self.stmf not in self.cfm:
             error_msg = "Undefined crypt filter: param=%r" % self.param
             raise PDFEncryptionError(error_msg)
 
@@ -529,7 +526,8 @@ class PDFStandardSecurityHandlerV4(PDFStandardSecurityHandler):
             if t is not None and literal_name(t) == "Metadata":
                 return data
         if name is None:
-            name = self.strf
+            # streams are deciphered with their attributes, strings without
+            name = self.stmf if attrs is not None else self.strf
         return self.cfm[name](objid, genno, data)
 
     def decrypt_identity(self, objid: int, genno: int, data: bytes) -> bytes:
